@@ -760,6 +760,23 @@ def gen_c02(tier, rng):
         ops.append("dec d reprint")
         ops.append("dec d pending")
         cases.append(Case("c02", ops, nontrivial=True, tags=(tag,)))
+    # every typed payload kind with a payload shorter than its header as the LAST message of an exactly sized buffer
+    # (a validator that touches a header field before its size check reads past the buffer here)
+    for ty in sorted(set(proto.TY.values())):
+        ops = []
+        for n in range(0, 42):
+            for pre in (b"", message(1, 2, 0, 0x05, b"\x01\x02\x03")):
+                fr = frame_header(1, 3, ty >> 8, 4, 5) + pre + message(6, 7, 0, ty & 0xFF, proto.rand_bytes(rng, n))
+                ops.append(feed(fr))
+        ops.append("dec d reprint")
+        cases.append(Case("c02s", ops, nontrivial=True, tags=("short-last-message",)))
+    # a reassembly that grows beyond 65551 bytes (vector reallocation while the header of the first segment is referenced)
+    ops = []
+    for k in range(47):
+        seg = 0x04 if k == 0 else (0x0C if k == 46 else 0x08)
+        ops.append(feed(frame_header(1, 1, 1, 1, 100 + k) + message(5, 6, seg, 0x05, bytes([(k + i) % 256 for i in range(1400)]))))
+    ops += ["dec d reprint", "dec d pending"]
+    cases.append(Case("c02big", ops, nontrivial=True, tags=("reassembly-over-64KiB",), meta={"noshrink": True}))
     # TECMP
     frames = gen_tecmp_frames(tier, rng)
     for i in range(0, len(frames), 25):
